@@ -220,7 +220,8 @@ def handleResolver (hdr : List String) (body : List (List String)) : List String
         let through := mode == "through"
         let start := if through then st else c.lib.num
         let (canon, fe) := FileSourceSeq.run ⟨start, sp, bs, []⟩ bundles none
-        let (evs, re) := Resolver.run files c through canon
+        let failAt : Option Nat := body.findSome? (fun ws => match ws with | ["failat", k] => k.toNat? | _ => none)
+        let (evs, re) := Resolver.runFailing files c through canon failAt
         let endTok := match re with
           | some e => rerrStr e
           | none => endStr fe
@@ -278,7 +279,14 @@ def handleResolver (hdr : List String) (body : List (List String)) : List String
                    && canonAll.any (·.id == c.lib.id)
                 then ["cursor-resolution-error-although-every-needed-forked-block-is-available"] else [])
              else [])
-        model ++ (fails.take 1).map ("monitor C06 FAIL " ++ ·)
+        -- C11: once the handler has returned an error it is not called again, and the source reports that error
+        let c11 : List String := match failAt with
+          | none => []
+          | some k =>
+            if impl.length > k + 1 then ["monitor C11 FAIL handler-called-again-after-it-returned-an-error"]
+            else if impl.length == k + 1 && rend != "handlererr" then [s!"monitor C11 FAIL handler-error-not-reported-as-the-cause-of-the-end (reported: {rend})"]
+            else []
+        model ++ (if failAt.isSome then [] else (fails.take 1).map ("monitor C06 FAIL " ++ ·)) ++ c11
     | _, _, _ => ["model bad-case"]
   | _ => ["model bad-case"]
 
